@@ -29,7 +29,7 @@ def nontrivial(case, impl, model, oracle):
 
 
 CHECK, MANIFEST = srvgen.make_check(
-    "C01", "Props/C01.v", ["c01_no_panic", "c01_composed_dispatch_same", "c01_no_panic_partial"],
+    "C01", "Props/C01.v", ["c01_no_panic", "c01_composed_dispatch_same", "c01_no_panic_partial", "c01_no_panic_tsig_partial"],
     srvgen.oracle_c01, gen, nontrivial, srvgen.std_classify,
     ("Coq theorem c01_no_panic (no axioms): the COMPOSED model of Server::handle_message (Model/ServerW.v) returns a response or "
      "none, never a panic, for every octet string, both transports, every EDNS size in [512, 65535], every key set and every catalog "
@@ -44,7 +44,11 @@ CHECK, MANIFEST = srvgen.make_check(
      "the key lemma (Proofs/ComposeKeyP.v) that query.rs only issues operations with well-formed arguments that obey the Writer's "
      "hint contract, so that C12's c12_ops_never_panic applies to each. STILL PARAMETERS (universally quantified, not covered): "
      "HMAC verification (its totality on the TSIG model is C11's c11_verify_total) and query answering for a request whose TSIG "
-     "verified; any response carrying a TSIG stays the abstract one of the first wave (the Writer model has no signing TSIG mode). Not modelled "
+     "verified. TSIG-BEARING RESPONSES: c01_no_panic_tsig_partial is the same statement for the EXTENDED composed model "
+     "(Model/ServerWT.v), which also writes the response's TSIG record in octets with the byte-level Writer model (ser_prepare, "
+     "Writer::set_tsig with the reserved-space arithmetic - OPT reserves 11 octets, the TSIG record must fit in what is left, else TC "
+     "-, finish_with_mac): no panic for every request whose TSIG is NOT verified (BADKEY, BADSIG, FORMERR for a forbidden MAC size), "
+     "any hmac, any clock < 2^48 s; the signing modes (BADTIME, verified) are modelled and run, not proved. Not modelled "
      "at all: AXFR (NOTIMP in this version), the socket loops and thread pool (C27-C30), zone-file loading (C15-C19, C31). The "
      "four panics/defects of the pinned tree on this path were repaired by fix: commits and are kept as refuted witnesses. The "
      "correspondence run feeds mutated, truncated and random requests to the real server and requires a non-panicking outcome "
@@ -70,24 +74,61 @@ def _raw(line):
     return None
 
 
+def _canon_tsig(line):
+    """the TSIG entry of the AR section in the summary form srvgen.resp_equal compares (both sides print the RDATA in hex
+    now that the model writes the TSIG record itself; the octets are compared through raw=)"""
+    out = []
+    for tok in line.split(" "):
+        if tok.startswith("AR=[") and tok.endswith("]") and tok != "AR=[?]":
+            tok = "AR=[" + ",".join(srvgen.canon_tsig_entry(x) for x in tok[4:-1].split(",") if x != "") + "]"
+        out.append(tok)
+    return " ".join(out)
+
+
 def corr_eq_w(case, impl, model):
-    if not srvgen.resp_equal(impl, model):
+    if not srvgen.resp_equal(impl, _canon_tsig(model)):
         return False
     rm = _raw(model)
     return rm is None or rm == _raw(impl)
+
+
+def gen_tsig_case(rng):
+    """a well-formed request (any opcode, mostly QUERY) whose LAST additional record is a TSIG record (known / unknown keys and
+    algorithms, MAC sizes around the allowed ones, long names), mostly preceded by an OPT record: the responses carry a TSIG
+    record (BADKEY / BADSIG / FORMERR) or, when it does not fit, TC"""
+    cat, names = srvgen.gen_catalog(rng, rng.random() < 0.7)
+    keys = srvgen.gen_keys(rng)
+    labels = rng.choice([[b"www", b"a"], [b"a"], [], [b"nx", b"example"], [b"q" * 63, b"r" * 63, b"s" * 63, b"t" * 61],
+                         [b"key", b"example"], [b"K"], [b"Example"]])
+    ar = ([srvgen.gen_opt(rng)] if rng.random() < 0.6 else []) + [srvgen.gen_tsig(rng)]
+    flags = rng.choice([0, 0x0100, 0x0100, 0x2800, 0x7800])
+    msg = dnsgen.u16(rng.randrange(65536)) + dnsgen.u16(flags) + dnsgen.u16(1) + dnsgen.u16(0) + dnsgen.u16(0) + dnsgen.u16(len(ar)) + \
+        dnsgen.enc_name(labels) + dnsgen.u16(rng.choice([1, 2, 255, 252, 99])) + dnsgen.u16(rng.choice([1, 1, 3, 255]))
+    for x in ar:
+        msg += x
+    return f"{rng.choice('uut')} {rng.choice([512, 512, 1232, 4096, 65535])} {cat} {keys} {dnsgen.hx(msg)}"
 
 
 def gen_w(rng, tier):
     quick = tier == "quick"
     for _ in range(5000 if quick else 150000):
         yield srvgen.gen_case(rng, loaded=True, mutate_p=0.3, clean_p=0.5)
+    # the TSIG-bearing responses, octet for octet: the reserved-space window, and the error classes
+    for _ in range(1500 if quick else 40000):
+        yield srvgen.gen_limit_edge_case(rng)
+    for _ in range(1500 if quick else 40000):
+        yield gen_tsig_case(rng)
 
 
 def nontrivial_w(case, impl, model, oracle):
     return _raw(model) is not None          # the composed model answered in octets
 
 
-CHECK["suites"].append(dict(CHECK["suites"][0], name="srvw", extract="Extract/ExSrvW.v", driver="run_srvw.ml",
+CHECK["suites"].append(dict(CHECK["suites"][0], name="srvw", impl_bin="impl_srvt", extract="Extract/ExSrvW.v", driver="run_srvw.ml",
                             runner_name="SRVW", gen=gen_w, nontrivial=nontrivial_w, corr_eq=corr_eq_w,
-                            rule=("the extracted composed model handle_message_w itself (no composition in the runner); every response "
-                                  "it produces in octets must equal the real server's octet for octet")))
+                            rule=("the extracted EXTENDED composed model handle_message_wt itself (no composition in the runner); every "
+                                  "response it produces in octets - now including the responses that carry a TSIG record (BADKEY / BADSIG "
+                                  "/ FORMERR, and the TC fallback of the reserved-space window) - must equal the real server's octet for "
+                                  "octet; the response's wall-clock fields (TSIG time signed / BADTIME server time) are normalised to the "
+                                  "model's clock 0 by impl_srvt when they lie between the clock readings around handle_message; "
+                                  "hmac is symbolic in the model runner (see ocaml/run_srvw.ml)")))
